@@ -123,16 +123,7 @@ def containsSub (s sub : String) : Bool := (s.splitOn sub).length > 1
 def classify (mdl : Lexer.LexAll) (spec : LexSpec.Res) (reason : String) : String :=
   match spec, mdl.err with
   | .ok _, some e =>
-    if e.msg = "invalid multiline comment" ∧ e.tok = [] then "KF:C08-short-comment-bracket-eq " ++ reason
-    else if e.msg = "Invalid token" ∧ (e.tok = [12] ∨ e.tok = [11]) then "KF:C08-formfeed-vt-not-blank " ++ reason
-    else reason
-  | .ok _, none =>
-    if reason.startsWith "newline-before-parenthesis flag" then "KF:C08-comment-hides-newline-before-paren " ++ reason
-    else reason
-  | .reject why, none =>
-    -- the scanner splits `3b`, `1then`, `0x1g` into a numeral and a name where the reference lexer reads one
-    -- malformed numeral; the text loads when the parser happens to accept the two tokens
-    if why = "malformed number" then "KF:C08-numeral-followed-by-letter " ++ reason
+    if e.msg = "Invalid token" ∧ (e.tok = [12] ∨ e.tok = [11]) then "KF:C08-formfeed-vt-not-blank " ++ reason
     else reason
   | _, _ => reason
 
